@@ -65,6 +65,9 @@ def fam_list():
     # with the previous-step force convention
     F.append(("alb", d1 + "alb {\n colvars d1\n centers 4.0\n updateFrequency 4\n forceRange 1.0\n rateMax 0.5\n}\n", "off"))
     F.append(("alb_2d", d1 + d2 + "alb {\n colvars d1 d2\n centers 4.0 1.5\n updateFrequency 4\n forceRange 1.0 2.0\n rateMax 0.5 0.5\n}\n", "off"))
+    F.append(("histrest", "colvar {\n  name hv\n  distancePairs {\n    group1 { atomNumbers 1 3 }\n    group2 { atomNumbers 2 4 }\n  }\n}\n"
+              "histogramRestraint {\n colvars hv\n lowerBoundary 0.0\n upperBoundary 40.0\n width 5.0\n gaussianSigma 2.0\n"
+              " refHistogram 0.01 0.02 0.03 0.04 0.05 0.03 0.01 0.01\n forceConstant 2.0\n outputEnergy on\n}\n", "off"))
     F.append(("reweight_amd", "#esim accelmd 2.5\n" + d1 + "reweightaMD {\n colvars d1\n}\n", "off"))
     F.append(("harm_ti_prev", d1 + "harmonic {\n colvars d1\n centers 5.0\n forceConstant 1.0\n writeTISamples on\n writeTIPMF on\n}\n", "prev"))
     F.append(("meta_harm_ti", d1 + "metadynamics {\n colvars d1\n hillWeight 0.5\n newHillFrequency 3\n hillWidth 2.0\n writeTIPMF on\n}\n", "same"))
